@@ -34,7 +34,7 @@ PRIM = {
     "cs": ["byte", "ushort", "uint", "ulong", "sbyte", "short", "int", "long", "float", "double", "bool"],
     "py": ["int", "float", "bool"],
 }
-USER_TAG_RE = re.compile(r"\{\{\{(USER_\w*)")
+USER_TAG_RE = re.compile(r"\{\{\{(USER_[\w\-]*)")
 PREFIX = "{{{USER_"
 
 
@@ -374,11 +374,27 @@ def rand_proto_model(r, big=False):
         for k in range(r.randint(1, 2)):
             en = "E" + names(r, "", 1, taken)[0]
             enums.append((en, [(en.upper() + "_%d" % j, j if r.random() < 0.7 else 16 * j + 1) for j in range(r.randint(1, 3))]))
-    return dict(kind="proto", backend="proto", structs=structs, msgs=msgs, enums=enums, preamble=r.choice([0xDEAD, 0xBEEF, 0xAAAA, 0x0100]),
+    redefined = {}
+    if msgs and r.random() < 0.25:
+        mn_, mid_, _ = r.choice(msgs)
+        free = [x for x in range(1, 250) if x not in ids]
+        redefined[mn_] = r.choice(free)
+    return dict(kind="proto", backend="proto", structs=structs, msgs=msgs, enums=enums, redefined=redefined, preamble=r.choice([0xDEAD, 0xBEEF, 0xAAAA, 0x0100]),
                 name=r.choice(["ExampleIF", "Foo", "IFoo", camel(r, 2)]), ns=r.choice(["ExampleIO", "NS"]))
 
 
-def build_proto_iface(kt, m):
+@contextlib.contextmanager
+def scratch_dir():
+    import shutil
+    import tempfile
+    d = tempfile.mkdtemp(prefix="kojenverif-")
+    try:
+        yield d
+    finally:
+        shutil.rmtree(d, ignore_errors=True)
+
+
+def build_proto_iface(kt, m, want_structs=False):
     itf = kt.Interface("I" + m["name"], m["preamble"])
     sobj = {}
     for sn, mem in m["structs"]:
@@ -398,6 +414,10 @@ def build_proto_iface(kt, m):
     for dn, dv in m.get("defines", []):
         itf.AddHashDefine(dn, dv)
     for mn, mid, mem in m["msgs"]:
+        if mn in m.get("redefined", {}):
+            # the script first defined this message under another id (common messages, then the product variant moves one):
+            # the later definition is the one that counts
+            itf.AddMessage(kt.Message(mn, m["redefined"][mn]))
         msg = kt.Message(mn, mid)
         for fn, t, d in mem:
             if t.startswith("struct:"):
@@ -405,6 +425,8 @@ def build_proto_iface(kt, m):
             else:
                 msg.AddType(fn, t, d)
         itf.AddMessage(msg)
+    if want_structs:
+        return itf, sobj
     return itf
 
 
@@ -541,7 +563,26 @@ class Runner:
                 ret = fn(outdir, self.tt_obj if self.tt_obj is not None else copy.deepcopy(model["tt"]), itf, model["ns"], model["name"], model.get("dclspc", ""),
                          model.get("author", "auth"), model.get("group", "grp"), model.get("brief", "brief"), model.get("templatedir", ""), "", copy_other)
             elif model["kind"] == "proto":
-                itf = build_proto_iface(self.kt, model)
+                grow = model.get("grown_struct")
+                if grow:
+                    # the script's interface had this struct one member shorter when it was generated first; the member was
+                    # then added to the very same Struct object (which other structs and messages contain), and the
+                    # interface generated again
+                    sn_, = [grow]
+                    older = copy.deepcopy(model)
+                    older["structs"] = [(n_, (mem_[:-1] if n_ == sn_ else mem_)) for n_, mem_ in model["structs"]]
+                    older.pop("grown_struct")
+                    itf, sobj = build_proto_iface(self.kt, older, want_structs=True)
+                    with scratch_dir() as warm:
+                        G.Protocol(os.path.join(warm, "o"), itf, model["ns"], model["name"], "", "auth", "grp", "brief", model.get("templatedir", ""), "", False)
+                    mn_, t_, d_ = dict(model["structs"])[sn_][-1]
+                    if t_.startswith("struct:"):
+                        sobj[sn_].AddStruct(mn_, sobj[t_[7:]])
+                    else:
+                        sobj[sn_].AddType(mn_, t_, d_)
+                    self.captured = []
+                else:
+                    itf = build_proto_iface(self.kt, model)
                 ret = G.Protocol(outdir, itf, model["ns"], model["name"], "", model.get("author", "auth"), model.get("group", "grp"), model.get("brief", "brief"), model.get("templatedir", ""), "", copy_other)
             elif model["kind"] == "uml":
                 fn = G.UML if model["backend"] == "uml" else G.UML_CSHARP
